@@ -108,7 +108,11 @@ void pass_baton(int to) {
 
 extern "C" {
 void vf_yield(int site) {
-  if (!g_threads_used) return;
+  if (!g_threads_used) {
+    // visible operation of main before the first spawn: the model's schedule has an entry for it too
+    if (g_pos < g_sched.size() && g_sched[g_pos] == 0) g_pos++;
+    return;
+  }
   pthread_mutex_lock(&g_mu);
   int me = t_id;
   // my next visible operation: wait until it is my turn in the schedule
@@ -283,6 +287,12 @@ void vf_check(bool c, const char* label) {
 }
 void vf_observe(uint64_t v) { digest(v); }
 void vf_reach(const char*) {}
+void vf_sched_point() { if (getenv("VF_SCHED_POINTS")) vf_yield(-3); }
+void vf_block_until(uint32_t* w) {
+  while (__atomic_load_n(w, __ATOMIC_SEQ_CST) == 0) {
+    if (g_threads_used) vf_yield(-4); else break;
+  }
+}
 void vf_atomic_begin() {}
 void vf_atomic_end() {}
 int vf_self() { return t_id; }
